@@ -784,7 +784,10 @@ func TestReplay(t *testing.T) { setup(t).ReplayEnv() }
 func TestProp(t *testing.T) {
 	r := setup(t)
 	defer r.Finish()
-	r.ReplayCommitted()
+	// the saved cases are replayed LAST (deferred: runs before Finish): a replay is a sequential-then-concurrent run of
+	// one scenario and would otherwise be the first to touch whatever the engine sets up on first use - alone, so that
+	// a race in such a one-time initialisation could never show in the phases below
+	defer r.ReplayCommitted()
 
 	gs := []int{2, 4, 8, 16, 32}
 	// the enumerated spaces start with the most goroutines: the first execution of a construct in the process is the
